@@ -132,6 +132,14 @@ class Rec:
         self.sub = 0      # extra evaluations performed inside this case (batched enumerations)
 
     def fail(self, clause, msg, **ctx):
+        # a NameError / ImportError raised by the harness's own code is a bug of the harness, never a verdict about the tree
+        exc = sys.exc_info()[1]
+        if isinstance(exc, (NameError, ImportError)) and exc.__traceback__ is not None:
+            tb = exc.__traceback__
+            while tb.tb_next is not None:
+                tb = tb.tb_next
+            if os.path.realpath(tb.tb_frame.f_code.co_filename).startswith(VERIF + os.sep):
+                raise HarnessError(f"{type(exc).__name__} in the harness ({tb.tb_frame.f_code.co_filename}:{tb.tb_lineno}): {exc}") from exc
         self.failures.append((clause, ctx, str(msg)[:2000]))
 
     def nt(self, flag=True):
